@@ -65,6 +65,32 @@ P = {
          "taint analysis with specialised summaries + ordering evaluation + default-literal table",
          "Trusted: pydantic restores omitted fields from declared defaults; semver compare returns -1/0/1. JSON fidelity of arbitrary metadata not decided."),
 }
+
+# clauses added during the seeded / refactoring rounds (appended to the texts above)
+EXTRA = {
+ "C01": " Also: no dtype conversion between the byte-order test and the dump; little-endian pinning of the reader dtype on every path; TFRecord writer table obtained by evaluating the dispatch for every dtype name of a frozen universe (any syntactic form); npz buffers saved unchanged.",
+ "C02": " Also: iteration methods keep no state on the dataset object; hand-over protocol of the lazy pool (blocking gets, one sentinel count, queue ownership); no memoisation of file-derived results; walk decided on the collection-algebra term of the generator.",
+ "C03": " Also: for all 8 combinations of selection options the returned paths derive from the walk through filter / prefix slice / map only (collection algebra); merge order as 'no order-destroying constructor on the data path from updates to the re-attached children'.",
+ "C04": " Also: merge de-duplication and grouping key (shared with C08), re-attached child records are fresh merge results (also when the list is rebound), writer constructors create no file.",
+ "C05": " Also: the walk check() relies on is complete (shared with C02.walk); current_metadata_checksums returns only digests computed in that call; no memoisation of file-derived results.",
+ "C06": " Also: no iteration entry point reaches hash_checksums (a reader must tolerate the legitimate intermediate states of a running or crashed writer); recursive merges never after the own write.",
+ "C07": " Also: no __exit__ returns a truthy value while an exception is in flight; contextlib.suppress judged like its handler; no glob / existence test on read paths; only the native interface uses the native reader.",
+ "C09": " Also: who-may-create/delete classification (a writer touches only its own fresh files) and load-before-extend of existing lists, shared with C06/C08.",
+ "C11": " Also: shard_filter and custom_metadata_type_limit forwarded on every call edge that reaches the selection routine; no memoisation of parsed shard lists.",
+ "C12": " Also: delegates accept every option of the delegating interface; group key built from injective operations; no context manager of the iteration module suppresses the empty-selection error.",
+ "C13": " Also: queue ownership (who may get/put on which queue, no polling), unbounded queues, sentinels counted at one place, failure forwarding of BaseException, __exit__ propagates.",
+ "C14": " Also: streams of streams (Iterable[Iterable[T]]) keep their laziness typing through zip/next/islice and containers; skipping is lazy; in-flight bound of the lazy pool.",
+ "C15": " Also: channel kinds, release path of the generator, epoch freshness, the key of a new static iterator does not depend on the map's content.",
+ "C16": " Also: read buffer private to the call; no memoisation; parent lists record digests of child lists rewritten in the same call (fresh records).",
+ "C17": " Also: the object whose parts / absoluteness is tested is the validated path itself (same path flavour), not a re-interpretation.",
+ "C18": " Also: rollover validates before closing the old shard; FlatBuffers builder internals are not assigned (one table exception); TFRecord writer/reader agreement evaluated per dtype name.",
+ "C19": " Also: whole-batch mapping and epoch freshness (shared with C02/C15), native repeat flag reaches the Rust constructor, no asyncstdlib tool closes the endless source.",
+ "C20": " Also: every read of a persisted JSON names the encoding it was written with; atomic publish temp file in the target's directory; expanduser guarded against RuntimeError; return tags of internal callees by least fixpoint.",
+}
+for _pid, _t in EXTRA.items():
+    _a, _b, _c = P[_pid]
+    P[_pid] = (_a + _t, _b, _c)
+
 checks = []
 for pid in sorted(P):
     text, tech, note = P[pid]
